@@ -100,6 +100,21 @@ func Catalogue(env *world.Env) []CatEntry {
 	delivery("MultiESDTNFTTransfer/delivery-fungible", base, uni.Multi(A0, C1, []uni.Ent{{Tok: uni.F, Nonce: 0, Q: 1}}))
 	delivery("MultiESDTNFTTransfer/delivery-mixed", base, uni.Multi(A0, C1, []uni.Ent{{Tok: uni.S, Nonce: 1, Q: 1}, {Tok: uni.F, Nonce: 0, Q: 1}}))
 	delivery("MultiESDTNFTTransfer/delivery-contract-with-call", base, uni.Multi(A0, S1, []uni.Ent{{Tok: uni.S, Nonce: 1, Q: 1}, {Tok: uni.S, Nonce: 2, Q: 1}}, f, []byte{7}))
+	// the destination already holds so much of the same nonce that the sum needs one more byte than
+	// the quantity sent (the entry written and priced at the destination is longer than the one sent)
+	rich := after(base, uni.Call(A0, A0, vmcommon.BuiltInFunctionESDTNFTAddQuantity, uni.S, uni.Big(1), uni.Big(70000)),
+		uni.NFTTransfer(A0, B0, uni.S, 1, 255), uni.NFTTransfer(A0, S0, uni.S, 1, 65535, f))
+	add("ESDTNFTTransfer/same-shard-destination-holds-255", rich, uni.NFTTransfer(A0, B0, uni.S, 1, 1))
+	add("ESDTNFTTransfer/same-shard-contract-holds-65536-with-call", rich, uni.NFTTransfer(A0, S0, uni.S, 1, 1, f))
+	add("MultiESDTNFTTransfer/same-shard-destination-holds-255", rich, uni.Multi(A0, B0, []uni.Ent{{Tok: uni.S, Nonce: 1, Q: 1}, {Tok: uni.F, Nonce: 0, Q: 1}}))
+	// attached calls with several arguments
+	x, y := []byte("x"), []byte("yy")
+	add("ESDTTransfer/to-contract-call-3-args", base, uni.ESDTTransfer(A0, S0, uni.F, 1, f, x, y, x))
+	add("ESDTNFTTransfer/cross-shard-contract-call-2-args", base, uni.NFTTransfer(A0, S1, uni.S, 1, 1, f, x, y))
+	add("MultiESDTNFTTransfer/same-shard-contract-call-2-args", base, uni.Multi(A0, S0, []uni.Ent{{Tok: uni.F, Nonce: 0, Q: 1}}, f, x, y))
+	add("MultiESDTNFTTransfer/cross-shard-2-tokens-call-2-args", base, uni.Multi(A0, S1, []uni.Ent{{Tok: uni.S, Nonce: 1, Q: 1}, {Tok: uni.F, Nonce: 0, Q: 1}}, f, x, y))
+	add("MultiESDTNFTTransfer/cross-shard-1-token-call-5-args", base, uni.Multi(A0, S1, []uni.Ent{{Tok: uni.F, Nonce: 0, Q: 1}}, f, x, y, x, y, x))
+	delivery("MultiESDTNFTTransfer/delivery-contract-call-5-args", base, uni.Multi(A0, S1, []uni.Ent{{Tok: uni.F, Nonce: 0, Q: 1}}, f, x, y, x, y, x))
 	add("ESDTFreeze", base, uni.SysCall(B0, vmcommon.BuiltInFunctionESDTFreeze, uni.F))
 	frozen := after(base, uni.SysCall(B0, vmcommon.BuiltInFunctionESDTFreeze, uni.F))
 	add("ESDTUnFreeze", frozen, uni.SysCall(B0, vmcommon.BuiltInFunctionESDTUnFreeze, uni.F))
